@@ -17,9 +17,9 @@ from tools.vlib import Outcome, sx
 from tools.props import c05_types as T
 
 MANIFEST = {
-    "level_text": "Coq theorems (Properties/C05.v, no axioms) over a faithful Gallina transcription of parse_type_structure (with the depth-aware find_top_level_comma / split_top_level of the repaired code), the default/TypeScript/Zod visitors, the Zod schema builder and add_types_prefix, for every type of the documented language (unbounded nesting): C05_parse_faithful (string -> TypeStructure round trip for every well-formed type, no class premise), C05_sound_plain (the text printed at parameter, field and channel sites denotes, under an independent TypeScript type parser with real precedences, exactly the README-table shape of the Rust type) on the complement of the one remaining text class (union under []), C05_compositional_*; a computed refutation inside Coq for each of the five remaining classes and a computed positive statement on the witnesses of the three repaired ones. The model is tied to /repo on every run: every constructor spine to depth 2 (quick) / 3 (thorough), all 14 numeric widths, random types to depth 6 and a malformed-string stream are pushed through the real parsers, visitors, schema builder and the real partial templates, compared string for string with the extracted model at all five sites in both modes, and the extracted specification is applied to the implementation's text.",
+    "level_text": "Coq theorems (Properties/C05.v, no axioms) over a faithful Gallina transcription of parse_type_structure (with the depth-aware find_top_level_comma / split_top_level), the default/TypeScript/Zod visitors, the Zod schema builder and add_types_prefix, for every type of the documented language (unbounded nesting): C05_parse_faithful (string -> TypeStructure round trip, no class premise); C05_sound_ts_sites - at every site whose text is a TypeScript type (parameter, field, channel in plain mode; channel, return, event payload in both modes: 8 of the 10 site x mode pairs) and outside the recorded classes the printed text, read by an independent TypeScript type parser with real precedences, is exactly the README-table shape of the Rust type, namespace-qualified at return/event sites (C05_sound_plain, C05_sound_prefix, C05_prefix_is_qualified_render: add_types_prefix on the visitor's text is the qualified rendering); C05_compositional_*; C05_oracle_exact (the boolean run-time oracle is equivalent to the Prop statement); a computed refutation for each of the five remaining classes and a computed positive statement on the witnesses of the three repaired ones. The model is tied to /repo on every run: every constructor spine to depth 2 (quick) / 3 (thorough), all 14 numeric widths, random types to depth 6 and a malformed-string stream are pushed through the real parsers, visitors, schema builder and the real partial templates, compared string for string with the extracted model at all five sites in both modes, and the extracted specification is applied to the implementation's text.",
     "design_ref": "DESIGN.md section 5 C05",
-    "level_note": "Proved in Coq for all types at any depth: the parser round trip, plain-mode parameter/field/channel sites and the Zod-mode channel site. For the namespace-qualified return/event sites (add_types_prefix) and the Zod-mode parameter/field schemas (read back as the inferred type by Spec/C05Spec.zshape) there is no for-all theorem: the statement is kept as C05_sound_full_statement and is machine-checked only on bounded sweeps of the model (C05_sweep_sound_depth1_partial / C05_classes_exact_depth1_partial in the property file: 196 types x 5 sites x 2 modes; the depth-2 sweep over the 3763 types of the quick enumeration is coq/Proofs/C05Sweep2.v, compiled by the thorough tier and kept out of the property's coqchk closure) plus the run-time oracle and correspondence. Event payload type inference (event_parser.rs) and whole-project generation through the CLI are not exercised: the event site starts from EventInfo.payload_type. Repaired and no longer classes: C05-2, C05-3 (comma splitting), C05-4 (prefix on composite element types). The TypeScript grammar subset, the Zod reading and the README table are specifications, not proved against tsc / zod / serde_json.",
+    "level_note": "Still not a for-all theorem: the two Zod-mode parameter/field SCHEMA sites (C05_sound_zod_schema_statement; the schema text is read back through the module lexer, the expression parser of Spec/TsModule.v with its fixed nesting budget 64, and Spec/C05Spec.zshape - no structural proof yet). They are machine-checked on bounded sweeps of the model (C05_sweep_sound_depth1_partial / C05_classes_exact_depth1_partial in the property file: 196 types x 5 sites x 2 modes; the depth-2 sweep over the 3763 types of the quick enumeration is coq/Proofs/C05Sweep2.v, compiled by the thorough tier and kept out of the property's coqchk closure) plus the run-time oracle and correspondence. Event payload type inference (event_parser.rs) and whole-project generation through the CLI are not exercised: the event site starts from EventInfo.payload_type. Types outside the documented language for which the three type_to_string variants differ (arrays [T; N], slices, lifetime / const generic arguments) are outside the model (they print unknown / [T; _] / [T] depending on the site). Repaired and no longer classes: C05-2, C05-3, C05-4. The TypeScript grammar subset, the Zod reading and the README table are specifications, not proved against tsc / zod / serde_json.",
     "technique": "Rocq/Coq proof over hand-written model + correspondence check (extracted OCaml vs Rust harness)"
 }
 
@@ -27,7 +27,8 @@ RULE = ("a case is (Rust type, site, mode); non-trivial = the type has at least 
         "(type, site, mode). Streams: corpus (known-finding witnesses and regression cases), spines (every constructor at "
         "every argument position, nested to depth 2 quick / 3 thorough, leaves String,&str,i32,u64,f64,bool,(),struct,enum), "
         "numeric (all 14 widths at every position of every depth-1 type), random (depth <= 6), random-clean (depth <= 6, tuple elements and Result Ok arguments without commas), raw (malformed ASCII strings, "
-        "unit-level functions only, correspondence only)")
+        "unit-level functions only, correspondence only), printers (the three type_to_string variants on arrays, slices, lifetime / const "
+        "generic arguments, qualified paths and fn types, bare and under six constructors; correspondence only)")
 TRUSTED = [
     "Spec/TsType.v + Model/Render.v lexer: TypeScript type grammar subset with postfix [] above |, generics, tuples, qualified names (no tsc in the sandbox)",
     "Spec/C05Spec.v zshape: reading of z.string/number/boolean/void/array/set/record/tuple/union/object/optional/nullable/custom as the type z.infer gives (from the Zod documentation)",
@@ -163,6 +164,60 @@ def evaluate_raw(cases):
     return outs
 
 
+# ---- the three type_to_string variants on types beyond the documented language (Model/C05TypeStr.v) ----
+def x_src(t):
+    k = t[0]
+    if k == "p":
+        segs = []
+        for sg in t[1]:
+            if len(sg) == 1:
+                segs.append(sg[0])
+            else:
+                segs.append(sg[0] + "<" + ", ".join("'static" if a[0] == "lt" else ("3" if a[0] == "const" else x_src(a[1])) for a in sg[1]) + ">")
+        return "::".join(segs)
+    if k == "r":
+        return "&" + x_src(t[1])
+    if k == "t":
+        return "(" + ", ".join(x_src(a) for a in t[1]) + ("," if len(t[1]) == 1 else "") + ")"
+    if k == "arr":
+        return "[" + x_src(t[1]) + "; 4]"
+    if k == "slice":
+        return "[" + x_src(t[1]) + "]"
+    return "fn(i32) -> i32"
+
+
+def x_cases():
+    P = lambda name, *args: ["p", [[name, [["ty", a] for a in args]] if args else [name]]]
+    u8, user, s = P("u8"), P("User"), P("str")
+    base = [
+        ["arr", u8], ["arr", user], ["r", ["slice", u8]], ["r", ["slice", user]], ["other"],
+        ["p", [["Cow", [["lt"], ["ty", s]]]]], ["p", [["Foo", [["lt"]]]]], ["p", [["Matrix", [["ty", P("f32")], ["const"], ["const"]]]]],
+        ["p", [["std"], ["borrow"], ["Cow", [["lt"], ["ty", s]]]]], ["p", [["std"], ["path"], ["PathBuf"]]],
+        ["p", [["Box", [["ty", ["other"]]]]]], ["arr", ["arr", u8]], ["p", [["Wrapper", [["lt"], ["ty", user], ["const"]]]]],
+        user, P("HashMap", P("String"), ["arr", u8]),
+    ]
+    out = list(base)
+    for b in base:
+        out += [P("Vec", b), P("Option", b), ["t", [P("i32"), b]], ["r", b], P("Result", b, P("String")), P("HashMap", P("String"), b)]
+    return out
+
+
+def evaluate_printers(cases):
+    """type_to_string at parameter/return (CommandParser), field (StructParser), channel (ChannelParser) vs the model"""
+    obs = vlib.run_harness("c05-emit", [{"id": i, "ty": x_src(t), "mappings": None} for i, t in enumerate(cases)], per_case_timeout=20)
+    res = vlib.run_runner("c05-printers", [sx(t) for t in cases])
+    outs = []
+    for t, o, r in zip(cases, obs, res):
+        case = {"printers": x_src(t)}
+        if "panic" in o or "error" in o:
+            outs.append(Outcome(case, False, True, detail={"impl": o.get("panic") or o.get("error"), "model": list(r)}))
+            continue
+        impl = {"command": o["tts"]["param"], "return": o["tts"]["return"], "struct": o["tts"]["field"], "channel": o["tts"]["channel"]}
+        model = {"command": r[0], "return": r[0], "struct": r[1], "channel": r[2]}
+        outs.append(Outcome(case, impl == model, True, detail={"impl": impl, "model": model}))
+    return outs
+
+
 def corpus_cases(pid):
     """known-finding witnesses first, then corpus/<pid>/*.json (lists of {"rust_type", "mappings"?})"""
     cases = []
@@ -217,6 +272,7 @@ def run(rep):
     run_stream(rep, "random", [{"ty": T.random_type(rng, rng.randint(2, 6))} for _ in range(nrand)], stats)
     run_stream(rep, "random-clean", [{"ty": T.random_clean_type(rng, rng.randint(2, 6))} for _ in range(nrand)], stats)
     rep.add("raw", evaluate_raw(raw_cases(rng, 20000 if thorough else 3000)))
+    rep.add("printers", evaluate_printers(x_cases()))
     if thorough:
         # the depth-2 sweep of the model inside Coq (same enumeration as the quick tier's spines stream)
         rc, out = vlib.coq_make(["Proofs/C05Sweep2.vo"], timeout=2700)
@@ -238,6 +294,9 @@ def replay(rep, payload):
         c = it["case"]
         if "raw" in c:
             rep.add("raw", evaluate_raw([{"id": 0, "ty": c["raw"]}]))
+            continue
+        if "printers" in c:
+            rep.add("printers", evaluate_printers([t for t in x_cases() if x_src(t) == c["printers"]]))
             continue
         case = {"ty": c["tree"], "mappings": c.get("mappings")}
         want = {(c["site"], c["mode"])} if "site" in c else None
